@@ -87,6 +87,24 @@ def eval_canon(mb, canon_json, n_sites):
     return oc.dense(H)
 
 
+def centered_left(case):
+    """a centred exponentially decaying term with at least one site left of the centre"""
+    for c in case.get('calls', []):
+        if c['f'] == 'add_centered':
+            subs = c.get('subsites')
+            if subs is None or any(j < c['i'] for j in subs):
+                if c['i'] > 0:
+                    return True
+    return False
+
+
+def only_onsite_bonds(M):
+    """no two-site coupling at all (the bond operators consist of distributed onsite terms only)"""
+    ct = M.all_coupling_terms()
+    ct.remove_zeros()
+    return len(ct.to_TermList().terms) == 0
+
+
 def classify_exporter(case, real, rep):
     """name the way in which the from-couplings exporters differ from the represented operator"""
     M = real['M']
@@ -187,8 +205,14 @@ def check_case(case, lean_out, real=None, use_model=True):
         facts['rep.' + name] = True
         if isinstance(rep, Exception):
             sig = f'dense.{name}.error.{type(rep).__name__}'
-            if name in ('numpy', 'sparse', 'numpy_undo') and any(c['f'] == 'add_centered' for c in case['calls']):
+            if name in ('numpy', 'sparse', 'numpy_undo') and isinstance(rep, ValueError) and centered_left(case):
                 sig = f'dense.{name}.centered_terms_unordered'
+            if name == 'mpo_from_bond' and isinstance(rep, UnboundLocalError) and 'chinfo' in str(rep):
+                sig = 'dense.mpo_from_bond.chinfo_unbound'
+            if name.startswith('grouped') and isinstance(rep, TypeError) and "'bool' object is not iterable" in str(rep):
+                sig = 'dense.grouped.GroupedSite_charge_to_JW_parity_list'
+            if name == 'grouped_segment' and isinstance(rep, ZeroDivisionError):
+                sig = 'dense.grouped_segment.extract_segment_after_group_sites'
             fails.append(('property', sig, f'{name}: {rep!r}'))
             continue
         d = oc.maxdiff(rep, H)
